@@ -33,6 +33,11 @@ B = (1, 3, 3)
 W5 = [(1, 3, 1, 9), A, (1, 3, 2, 1), (1, 3, 2, 2), (1, 3, 3, 1)]
 W7 = [(1, 3, 1, 9), A, (1, 3, 2, 1), (1, 3, 2, 2), (1, 3, 2, 3), (1, 3, 3, 1), (1, 7, 1)]
 TRUE_DB = [(1, 3, 2, 1), (1, 3, 2, 2), (1, 3, 3, 1)]
+# a sibling subtree whose number starts with the decimal digits of root A's
+# last arc (1.3.2 / 1.3.20): textual and arc-wise containment differ
+P = (1, 3, 20)
+W7P = [(1, 3, 1, 9), A, (1, 3, 2, 1), (1, 3, 2, 2), (1, 3, 20, 1), (1, 3, 20, 2), (1, 7, 1)]
+TRUE_DB_P = [(1, 3, 2, 1), (1, 3, 2, 2), (1, 3, 20, 1), (1, 3, 20, 2)]
 
 OPS = {
     "walk": (("walk", A), [A], "getnext"),
@@ -52,21 +57,29 @@ OPS = {
     "bulkwalk1-cut": (("bulkwalk", [A], 1), [A], "bulk"),
     "bulkwalk2-cut": (("bulkwalk", [A], 2), [A], "bulk"),
     "bulkwalk2x2-cut": (("bulkwalk", [A, B], 2), [A, B], "bulk"),
+    "walk-p": (("walk", A), [A], "getnext"),
+    "multiwalk-p": (("multiwalk", [A, P]), [A, P], "getnext"),
+    "bulkwalk1x2-p": (("bulkwalk", [A, P], 1), [A, P], "bulk"),
+    "bulkwalk2x2-p": (("bulkwalk", [A, P], 2), [A, P], "bulk"),
+    "bulktable2-p": (("bulktable", (1, 3, 2), 2), [(1, 3, 2)], "bulk"),
 }
 
 # (operation, universe name, deviation bound or None)
 ALL_OPS = ["walk", "walk-warn", "table", "multiwalk", "multiwalk-warn", "bulkwalk1", "bulkwalk2", "bulkwalk3", "bulkwalk1x2", "bulkwalk2x2", "bulktable2"]
 CUT_OPS = ["bulkwalk1-cut", "bulkwalk2-cut", "bulkwalk2x2-cut"]
+P_OPS = ["walk-p", "multiwalk-p", "bulkwalk1x2-p", "bulkwalk2x2-p", "bulktable2-p"]
 PLAN = {
-    "quick": [(o, "W7", None) for o in ALL_OPS if o not in ("bulkwalk2x2",)] + [("bulkwalk2x2", "W5", None), ("bulkwalk2x2", "W7", 3)] + [(o, "W5", 3) for o in CUT_OPS],
+    "quick": [(o, "W7", None) for o in ALL_OPS if o not in ("bulkwalk2x2",)] + [("bulkwalk2x2", "W5", None), ("bulkwalk2x2", "W7", 3)] + [(o, "W5", 3) for o in CUT_OPS]
+    + [(o, "W7P", 2) for o in P_OPS],
     "thorough": [(o, "W7", None) for o in ALL_OPS]
     + [(o, "W9", None) for o in ("walk", "walk-warn", "multiwalk", "multiwalk-warn", "bulkwalk1", "bulkwalk2", "bulkwalk1x2", "table")]
     + [(o, "W9", 4) for o in ("bulkwalk3", "bulkwalk2x2", "bulktable2", "bulkwalk4")]
     + [("bulkwalk4", "W7", None)]
-    + [(o, "W7", 4) for o in CUT_OPS] + [("bulkwalk1-cut", "W5", None), ("bulkwalk2-cut", "W5", None)],
+    + [(o, "W7", 4) for o in CUT_OPS] + [("bulkwalk1-cut", "W5", None), ("bulkwalk2-cut", "W5", None)]
+    + [(o, "W7P", 4) for o in P_OPS],
 }
 W9 = sorted(W7 + [(1, 3, 2, 4), (1, 3, 3, 2)])
-UNIVERSES = {"W5": W5, "W7": W7, "W9": W9}
+UNIVERSES = {"W5": W5, "W7": W7, "W9": W9, "W7P": W7P}
 MAX_EXEC = {"quick": 60_000, "thorough": 1_500_000}
 
 
@@ -76,8 +89,8 @@ def creds():
     return V2C("public")
 
 
-def true_successor(oid):
-    for o in TRUE_DB:
+def true_successor(oid, db=TRUE_DB):
+    for o in db:
         if o > oid:
             return o
     return None
@@ -96,7 +109,7 @@ def make_run(opname, uname, client):
         def fn(agent, oid, rep):
             key = (oid, rep)
             if key not in memo:
-                default = true_successor(oid)
+                default = true_successor(oid, TRUE_DB_P if uname == "W7P" else TRUE_DB)
                 menu = [default] + [w for w in W if w != default] + ([None] if default is not None else [])
                 k = ctx.choose(len(menu), "f%r" % (key,))
                 memo[key] = menu[k]
